@@ -747,7 +747,37 @@ func c16R10(c *Ctx) {
 		if kit.IsFieldLoad(recv, c.Field(r, pProv, "pipelineLocks", "mu")) || kit.FieldOf(recv) != nil {
 			continue
 		}
+		var inRegistry func(x ssa.Value, depth int) bool
+		inRegistry = func(x ssa.Value, depth int) bool {
+			if lk, ok := x.(*ssa.Lookup); ok && kit.IsFieldLoad(lk.X, locksF) {
+				return true
+			}
+			if refs := x.Referrers(); refs != nil {
+				for _, u := range *refs {
+					if mu, ok := u.(*ssa.MapUpdate); ok && mu.Value == x && kit.IsFieldLoad(mu.Map, locksF) {
+						return true
+					}
+				}
+			}
+			// the result of a same-package helper all of whose returns hand out a registered mutex
+			if cl, ok := x.(*ssa.Call); ok && depth > 0 {
+				if h := cl.Call.StaticCallee(); h != nil && h.Pkg == lock.Pkg && len(h.Blocks) > 0 {
+					rets := kit.Returns(h)
+					okAll := len(rets) > 0
+					for _, rt := range rets {
+						if !kit.DerivesFrom(kit.RetVal(rt, 0), func(y ssa.Value) bool { return inRegistry(y, depth-1) }) {
+							okAll = false
+						}
+					}
+					return okAll
+				}
+			}
+			return false
+		}
 		inMap := kit.DerivesFrom(recv, func(x ssa.Value) bool {
+			if inRegistry(x, 2) {
+				return true
+			}
 			if lk, ok := x.(*ssa.Lookup); ok && kit.IsFieldLoad(lk.X, locksF) {
 				return true
 			}
